@@ -12,6 +12,8 @@ import re
 import xml.etree.ElementTree as ET
 
 SC = re.compile(r"\bS\d+\b")
+# decoration appended by the harness to every name / step text of a "decorated" universe
+DECORS = [" \"q\" <&> ]]> \u00e9\u4e16 'a' \\n", " \"q\" <&> \u00e9\u4e16 'a' \\n"]
 STATUS_MARK = {"✔": "passed", "?": "skipped", "✘": "failed"}
 
 
@@ -31,7 +33,13 @@ def step_tables(universe):
 
 def _idx(tables, scen, text):
     lst = tables.get(scen, [])
+    for d in DECORS:
+        if text.endswith(d):
+            text = text[:-len(d)]
     text = text.strip()
+    for d in DECORS:
+        if text.endswith(d.strip()):
+            text = text[:-len(d.strip())].strip()
     for i, x in enumerate(lst):
         if x == text:
             return i + 1
